@@ -202,6 +202,7 @@ OPNMIDI_EXPORT int opn2_removeBank(OPN2_MIDIPlayer *device, OPN2_Bank *bank)
     Synth::BankMap &map = play->m_synth->m_insBanks;
     Synth::BankMap::iterator it = Synth::BankMap::iterator::from_ptrs(bank->pointer);
     size_t size = map.size();
+    play->realTime_panic(); // playing notes may still point to the instruments of this bank
     map.erase(it);
     return (map.size() != size) ? 0 : -1;
 }
